@@ -56,7 +56,7 @@ def coq_build(timeout=3000, targets=None):
     with open(os.path.join(WORK, "coq.lock"), "w") as lk:
         fcntl.flock(lk, fcntl.LOCK_EX)
         ensure_coq_project()
-        cmd = ["make", "-j16"] + (targets or [])
+        cmd = ["make", "-j16"] + (targets or ["-k"])
         rc, out = run(cmd, cwd=COQ, timeout=timeout)
         return rc == 0, out
 
@@ -296,7 +296,7 @@ def main(argv):
 
     # 1. proofs
     log("[%s] building Coq development (full .vo build)" % pid)
-    ok, out = coq_build()
+    ok, out = coq_build(targets=[prop["coq_property_file"] + "o", "Run/%s.vo" % prop["run_module"]])
     coqinfo = dict(ok=False, theorems=[], examples=[], axioms=[], assumptions={}, printed=[])
     deps = []
     if not ok:
